@@ -686,6 +686,10 @@ def run(prog, rep, tier):
     rep.rule('SLICE-neg-zero', 'a negative slice bound -E needs E != 0 at that point')
     if check_neg_zero_slices(prog, rep) < 3:
         raise AnalysisError('SLICE-neg-zero: the slices of _tensordot_transpose_axes / _tensordot_worker not found')
+    from ..flow import check_carried_flags
+    rep.rule('LOOP-carried-flag', 'a flag set under a test inside a loop body and read there is '
+             're-initialised per iteration')
+    check_carried_flags(prog, rep, ['tenpy/linalg/np_conserved.py', 'tenpy/linalg/charges.py'])
     return rep.finish(
         level='other',
         explanation='Bookkeeping clauses of C01 (leg labels propagated as documented; axes '
